@@ -12,8 +12,9 @@ class C01(ProgramProperty):
                 "C01_unique_answer", "C01_perm"]
     lean_modules = ["CuriesVerif.Properties.C01"]
     rule = ("one case = one overlap-lattice record collection (nested / sibling / identical-up-to-one-symbol URI "
-            "prefixes, synonyms nested in other records' prefixes, '' in ~12%, delimiters : / :: _ | -:) built three "
-            "ways (constructor, shuffled constructor, shuffled add_record sequence from an empty converter), each "
+            "prefixes, synonyms nested in other records' prefixes, '' in ~12%, delimiters : / :: _ | -:) built four "
+            "ways (constructor, shuffled constructor, shuffled add_record sequence from an empty converter, and a converter "
+            "that is queried on the probes, extended with add_record/add_prefix and queried again), each "
             "queried with parse_uri / compress / is_uri on 10 probe URIs (registered prefix exactly, minus / plus one "
             "symbol, plus the tail of another registered prefix, random). Non-trivial = at least two registered "
             "URI prefixes are prefixes of some probe; distinct = distinct step lists.")
@@ -43,6 +44,12 @@ class C01(ProgramProperty):
                 steps.append(q(c, "parse_uri", u))
                 steps.append(q(c, "compress", u))
                 steps.append(q(c, "is_uri", u))
+        # fourth build: a long-lived converter that is queried, extended, and queried again
+        qs3 = []
+        for u in probes:
+            qs3 += [q(3, "parse_uri", u), q(3, "compress", u), q(3, "is_uri", u)]
+        more, how = gen.build_steps(rng, recs, delim, qs3, slot=3, p_incremental=1.0)
+        steps += more
         us = gen.all_uris(recs)
         multi = any(sum(1 for k in us if u.startswith(k)) >= 2 for u in probes)
         tags = [f"delim={delim!r}", f"records={len(recs)}"]
